@@ -236,6 +236,56 @@ def a_detailed_history_survives_assignment_dump_and_load(k0: int, k1: int, n: in
         assert utils.getCycleNames(cs2) == [("second" if k == 1 else None) for k in (k0, k1)]
 
 
+@lemma(overrides=OV, gen={"k0": (0, 2), "k1": (0, 2), "n": (1, 3), "L": (0.0, 500.0), "a": (0.0, 1.0), "d0": (-20.0, 90.0), "d1": (-5.0, 90.0),
+                          "d2": (-5.0, 90.0)})
+def a_detailed_history_with_any_cumulative_days_survives_or_is_rejected(k0: int, k1: int, n: int, L: float, a: float, d0: float, d1: float, d2: float):
+    """cs['cycles'] = two cycles, each in one of the 3 ways with n = 1..3 steps; cycle length, availability and
+    cumulative days symbolic.  Like a_detailed_history_survives_assignment_dump_and_load WITHOUT its hypothesis that
+    the day increments d0, d1, d2 are positive: the first cumulative day may be zero or negative (the schema only asks
+    for strictly increasing days), a non-increasing list is rejected and leaves the previous value"""
+    k0 = choose(k0, 0, 2)
+    k1 = choose(k1, 0, 2)
+    n = choose(n, 1, 3)
+    raw = [cycle_entry(k0, n, L, a, [d0, d1, d2]), cycle_entry(k1, n, L, a, [d0, d1, d2])]
+    cs = settings()
+    try:
+        cs["cycles"] = raw
+        accepted = True
+    except Invalid:
+        accepted = False
+    usesLA = k0 != 2 or k1 != 2
+    usesL = k0 == 0 or k1 == 0
+    usesCum = k0 == 2 or k1 == 2
+    increasing = all([d0, d1, d2][i] > 0 for i in range(1, n))
+    assert accepted == ((not usesLA or (0 <= a and a <= 1)) and (not usesL or L >= 0) and (not usesCum or increasing)), \
+        "accepted exactly when availability is in [0, 1], the cycle length is not negative and cumulative days increase strictly"
+    if not accepted:
+        assert cs["cycles"] == [], "a rejected value leaves the previous value in place"
+    else:
+        stored = cs["cycles"]
+        assert len(stored) == 2
+        for c in range(2):
+            kind = (k0, k1)[c]
+            assert sorted(stored[c].keys()) == sorted(raw[c].keys()), "the same entries"
+            if kind == 0:
+                assert eq(stored[c]["cycle length"], L) and stored[c]["burn steps"] == n and eq(stored[c]["availability factor"], a)
+            elif kind == 1:
+                assert stored[c]["step days"] == ["10.5", "1R", "30"][:n] and stored[c]["name"] == "second"
+            else:
+                assert eq(stored[c]["cumulative days"], raw[c]["cumulative days"])
+        written = cs._Settings__settings["cycles"].dump()
+        assert written is stored, "what is written is the stored value"
+        cs2 = settings()
+        cs2["cycles"] = written
+        assert cs2["cycles"] == stored, "reading the written form back gives an equal value"
+        # (P) the history functions below are consumers outside the round-trip clause: with availability 0 and a cycle
+        # given by its steps, utils._getStepAndCycleLengths divides the step sum by the availability (ZeroDivisionError)
+        assume(a > 0)
+        assert eq(utils.getStepLengths(cs2), utils.getStepLengths({"cycles": raw})), "and the same history"
+        assert utils.getNodesPerCycle(cs2) == [n + 1, n + 1]
+        assert utils.getCycleNames(cs2) == [("second" if k == 1 else None) for k in (k0, k1)]
+
+
 @lemma(overrides=OV, gen={"case": (0, 13), "L": (1.0, 500.0), "d0": (0.5, 90.0), "d1": (0.5, 90.0)})
 def a_history_the_schema_cannot_hold_is_rejected(case: int, L: float, d0: float, d1: float):
     """one near-miss per clause of the `cycles` schema (14 cases); the valid first cycle stays in place"""
